@@ -74,12 +74,12 @@ def _winit(modname):
         for h, d in e.get("cases", {}).items():
             idx[h] = (e["id"], d)
     _W["known"] = idx
-    signal.signal(signal.SIGALRM, _alarm)
+    signal.signal(signal.SIGPROF, _alarm)
 
 
 def run_one(mod, case):
     """Run one case under the CPU cap; never raises."""
-    signal.setitimer(signal.ITIMER_REAL, getattr(mod, "META", {}).get("case_cap_s", CASE_CAP_S))
+    signal.setitimer(signal.ITIMER_PROF, getattr(mod, "META", {}).get("case_cap_s", CASE_CAP_S))
     try:
         r = mod.run_case(case)
     except CaseTimeout:
@@ -93,7 +93,7 @@ def run_one(mod, case):
             "detail": traceback.format_exc()[-2000:],
         }
     finally:
-        signal.setitimer(signal.ITIMER_REAL, 0)
+        signal.setitimer(signal.ITIMER_PROF, 0)
     return r
 
 
@@ -341,7 +341,7 @@ def replay(modname, path):
     if src and src not in sys.path:
         sys.path.insert(0, src)
     mod = importlib.import_module(modname)
-    signal.signal(signal.SIGALRM, _alarm)
+    signal.signal(signal.SIGPROF, _alarm)
     with open(path) as f:
         rec = json.load(f)
     case = rec["case"]
